@@ -1,4 +1,6 @@
 import BoltonsVerif.C05.Proofs
+import BoltonsVerif.C04.Props
+import BoltonsVerif.Generated.C05_Consts
 /-
 C05 — property theorems about `runSave cfg body plan fs0 e` (the transliterated `AtomicSaver` after
 the three `fix:` commits) for EVERY plan (any number of failing calls, at any call sites, with any
@@ -291,6 +293,46 @@ theorem existing_part_untouched (cfg : Cfg) (body : Body) (plan : Plan) (fs0 : F
     simp [St.init] at this
   · have := (r.j.pinit rfl).1 (by simp only [fin] at htr; rw [htr]; simp)
     rw [this, hpart]
+
+/-- **The two semantics agree**: when no other process interferes, the file system the saver ends
+    with - whatever failed - is exactly what C04's `exec` makes of the events it recorded (a failed call
+    changes nothing; a failing `close()` still closes and is recorded) -/
+theorem run_is_exec (cfg : Cfg) (body : Body) (plan : Plan) (fs0 : FS) (e : Nat) (hne : ∀ k, plan k ≠ .appear) :
+    exec fs0 (fin cfg body plan fs0 e).tr = some (fin cfg body plan fs0 e).fs :=
+  runSave_X cfg body plan fs0 e hne
+
+/-- hence a crash at ANY point of ANY faulty run is safe: for every plan, every prefix of the events
+    performed and both crash semantics, the destination reads the old state or the complete new content
+    (`C04.safeTrace_crash_safe` applied to `trace_is_safe`) -/
+theorem faulty_run_crash_safe (cfg : Cfg) (body : Body) (plan : Plan) (fs0 : FS) (e : Nat)
+    (hwf : fs0.WF) (hh : fs0.hist = []) (hsy : DestSynced fs0) :
+    ∀ p q fs, (fin cfg body plan fs0 e).tr = p ++ q → exec fs0 p = some fs →
+      (fs.destAfterProcCrash = fs0.readDest ∨ fs.destAfterProcCrash = some (allWrites (fin cfg body plan fs0 e).tr)) ∧
+      (∀ r, fs.PowerDest r → r = fs0.readDest ∨ r = some (allWrites (fin cfg body plan fs0 e).tr)) ∧
+      (publishes p = false → fs.destAfterProcCrash = fs0.readDest ∧ ∀ r, fs.PowerDest r → r = fs0.readDest) := by
+  intro p q fs ht hx
+  have := safeTrace_crash_safe fs0 _ hwf hh hsy (trace_is_safe cfg body plan fs0 e) p q fs ht hx
+  exact ⟨this.1, this.2.1, this.2.2.1⟩
+
+/-- translator obligation (regenerated from the current source on every run): `RW_PERMS` and
+    `AtomicSaver._default_file_perms` are the model's `RW_PERMS` (0o666) -/
+theorem source_default_perms : Gen.rwPerms = RW_PERMS ∧ Gen.defaultFilePerms = RW_PERMS := by decide
+
+/-- **A fault-free save with nothing in its way completes**: no exception (hence, by
+    `failure_is_reported` / `published_content` / `perms`: published, new content, right mode, no part file) -/
+theorem nofault_save_completes (cfg : Cfg) (body : Body) (fs0 : FS) (e : Nat)
+    (hpart : fs0.dir.part = none ∨ cfg.overwritePart = true)
+    (hdest : fs0.dir.dest = none ∨ cfg.overwrite = true) (hr : body.raises = false) :
+    out cfg body noFaults fs0 e = .ok :=
+  runSave_nofault_ok cfg fs0 e body noFaults (fun _ => rfl) hpart hdest hr
+
+/-- **The fault-free runs of this model are C04's `saverTrace`**: the events recorded by `runSave`
+    without faults are exactly the trace C04's theorems speak about -/
+theorem nofault_trace_is_saverTrace (cfg : Cfg) (body : Body) (fs0 : FS) (e : Nat)
+    (hpart : fs0.dir.part = none ∨ cfg.overwritePart = true)
+    (hdest : fs0.dir.dest = none ∨ cfg.overwrite = true) :
+    (fin cfg body noFaults fs0 e).tr = saverTrace cfg fs0 body :=
+  runSave_nofault_trace cfg fs0 e body noFaults (fun _ => rfl) hpart hdest
 
 /-! ### non-vacuity: concrete states and plans satisfying the hypotheses above -/
 
